@@ -434,7 +434,12 @@ impl WCtx {
     fn ctx_str(c: Option<SpanContext>) -> String {
         match c {
             None => "c none".to_string(),
-            Some(c) => format!("c {:x} {:x} {}", c.trace_id.0, c.span_id.0, c.sampled as u8),
+            Some(c) => {
+                // C11: the context must survive the traceparent text round trip unchanged
+                let back = SpanContext::decode_w3c_traceparent(&c.encode_w3c_traceparent());
+                let same = back.map(|b| b.trace_id == c.trace_id && b.span_id == c.span_id && b.sampled == c.sampled).unwrap_or(false);
+                format!("c {:x} {:x} {}{}", c.trace_id.0, c.span_id.0, c.sampled as u8, if same { "" } else { " traceparent-round-trip-differs" })
+            }
         }
     }
 
